@@ -192,6 +192,74 @@ class Gen:
         return v
 
 
+    # ---- directed support cases: every sign pattern of both operands' intervals x constant / random
+    SIGNS = {"neg": [(-5, -1), (-3.5, -0.5), (-2, -1)], "negtouch": [(-3, 0), (-1.5, 0)],
+             "straddle": [(-2, 3), (-3, 1), (-1, 2), (-0.5, 0.25), (-4, 4)],
+             "postouch": [(0, 2), (0, 0.5)], "pos": [(1, 4), (0.5, 2), (2, 3), (1, 2)]}
+
+    def sign_operand(self, allow_compound=True):
+        import math
+        rng = self.rng
+        pat = rng.choice(list(self.SIGNS))
+        lo, hi = rng.choice(self.SIGNS[pat])
+        form = rng.choice(["const", "range", "range", "range", "drange", "tnorm", "nested", "compound", "shared"])
+        if form == "shared":
+            cands = [d for d in self.defs if d["kind"] in ("range", "drange", "tnorm") and d.get("sign")]
+            if cands:
+                d = rng.choice(cands)
+                return ("ref", d["idx"]), d["sign"], "shared"
+            form = "range"
+        if form == "const":
+            return ("const", rng.choice([lo, hi, (lo + hi) / 2])), pat, form
+        if form == "compound" and allow_compound:
+            x, p2, f2 = self.sign_operand(allow_compound=False)
+            k = rng.choice(["neg", "abs", "mulc", "addc", "subc", "rsubc"])
+            cc = rng.choice([2, -2, 0.5, -1, 3])
+            t = {"neg": ("un", "neg", x), "abs": ("un", "abs", x), "mulc": ("bin", "mul", x, ("const", cc)),
+                 "addc": ("bin", "add", x, ("const", cc)), "subc": ("bin", "sub", x, ("const", cc)),
+                 "rsubc": ("bin", "sub", ("const", cc), x)}[k]
+            return t, k + "(" + p2 + ")", "compound"
+        i = len(self.defs)
+        d = dict(idx=i, var=f"L{i}", sign=pat)
+        self.defs.append(d)
+        if form == "drange" and math.ceil(lo) < math.floor(hi):
+            d.update(kind="drange", args=[("const", math.ceil(lo)), ("const", math.floor(hi))])
+        elif form == "tnorm":
+            d.update(kind="tnorm", params=[(lo + hi) / 2, rng.choice([1, 2]), lo, hi])
+        elif form == "nested":
+            mid = (lo + hi) / 2
+            d.update(kind="range", args=[("const", lo), ("const", mid)])
+            j = len(self.defs)
+            self.defs.append(dict(idx=j, var=f"L{j}", kind="range", args=[("ref", i), ("const", hi)]))
+            self.tags.add("nested-bounds")
+            return ("ref", j), pat, form
+        else:
+            form = "range"
+            d.update(kind="range", args=[("const", lo), ("const", hi)])
+        return ("ref", i), pat, form
+
+    def sign_case(self):
+        rng = self.rng
+        op = rng.choice(["div", "div", "div", "mul", "mul", "add", "sub", "sub"])
+        a, pa, fa = self.sign_operand()
+        b, pb, fb = self.sign_operand()
+        if fa == "const" and fb == "const":
+            b, pb, fb = self.sign_operand(allow_compound=False)
+        self.tags.add(f"sign:{op}:{pa}/{pb}")
+        self.tags.add(f"signform:{fa}/{fb}")
+        t = ("bin", op, a, b)
+        r = rng.random()
+        if r < 0.25:      # one more level: the derived interval feeds another operator
+            c, pc, fc = self.sign_operand(allow_compound=False)
+            op2 = rng.choice(["div", "mul", "add", "sub"])
+            t = ("bin", op2, t, c) if rng.random() < 0.5 else ("bin", op2, c, t)
+        elif r < 0.35:
+            t = ("un", rng.choice(["abs", "neg"]), t)
+        elif r < 0.42:
+            t = ("call", rng.choice(["max", "min"]), [(False, t), (False, self.sign_operand(allow_compound=False)[0])])
+        return t
+
+
 def cst(v):
     if isinstance(v, (tuple, list)):
         inner = ", ".join(cst(x) for x in v)
@@ -441,11 +509,186 @@ def gen_delayed(rng, idx):
                 forms=[baz, qux])
 
 
+LAZY_HELPERS_SC = """from collections import namedtuple
+from scenic.core.distributions import distributionFunction
+Pair = namedtuple("Pair", ["lo", "hi"])
+def f1(a, k=0):
+    return a + k
+def f2(a, k=0):
+    return a * k + 1
+@distributionFunction
+def kind(s):
+    return type(s).__name__
+@distributionFunction
+def ext(s):
+    return s + [100]
+@distributionFunction
+def spread(p):
+    return p.hi - p.lo
+@distributionFunction
+def second(s):
+    return s[1]
+@distributionFunction
+def total(s):
+    return sum(s)
+def getk(d):
+    return d["k"] + 1
+def getj(d):
+    return d["j"] * 2 - d["k"]
+"""
+LAZY_HELPERS_PY = LAZY_HELPERS_SC.replace("from collections import namedtuple\n", "").replace(
+    "from scenic.core.distributions import distributionFunction\n", "").replace("@distributionFunction\n", "")
+
+
+def gen_lazy(rng, idx):
+    """Containers (list / tuple / namedtuple / dict) and distribution arguments mixing a random element with a
+    LAZILY evaluated one (self.<prop> in class defaults; vector-field-relative values in specifier arguments), consumed
+    by lifted functions that observe the container's kind as well as its contents."""
+    def leaves(ctx):
+        if ctx == "class":
+            return [("self.bar", "self.bar"), ("self.bar", "self.bar"), ("self.k", "self.k"), ("self.position.x", "self.position.x")]
+        return [("(0 relative to vf).yaw", "(2 * self.position.x)"), ("(0.5 relative to vf).yaw", "(2 * self.position.x + 0.5)")]
+
+    def lazy(ctx):
+        L = rng.choice(leaves(ctx))
+        r = rng.random()
+        if r < 0.6:
+            return L
+        if r < 0.75:
+            return (f"({L[0]} + r)", f"({L[1]} + self.rnd)")
+        if r < 0.9:
+            return (f"({L[0]} * 2)", f"({L[1]} * 2)")
+        return (f"abs({L[0]} - 3)", f"abs({L[1]} - 3)")
+
+    def rand():
+        return rng.choice([("r", "self.rnd"), ("r", "self.rnd"), ("(r * 2)", "(self.rnd * 2)"), ("(1 - r)", "(1 - self.rnd)")])
+
+    def const():
+        c = rng.choice(["1", "2.5", "0", "7"])
+        return (c, c)
+
+    def elems(ctx, n):
+        pool = [lazy(ctx)] + [rng.choice([rand, rand, rand, const, lambda: lazy(ctx)])() for _ in range(n - 1)]
+        rng.shuffle(pool)
+        return pool
+
+    def both(fmt, *parts):
+        return (fmt.format(*[p[0] for p in parts]), fmt.format(*[p[1] for p in parts]))
+
+    def container(ctx, kind):
+        if kind == "list":
+            es = elems(ctx, rng.choice([2, 2, 3]))
+            return both("[" + ", ".join("{}" for _ in es) + "]", *es)
+        if kind == "tuple":
+            es = elems(ctx, rng.choice([2, 2, 3]))
+            return both("(" + ", ".join("{}" for _ in es) + ")", *es)
+        if kind == "pair":
+            es = elems(ctx, 2)
+            return both(rng.choice(["Pair({}, {})", "Pair(lo={}, hi={})", "Pair({}, hi={})"]), *es)
+        es = elems(ctx, 2)
+        return both('{{"k": {}, "j": {}}}', *es)
+
+    def form(ctx):
+        """-> (scenic text, check dict)"""
+        k = rng.choice(["list", "list", "tuple", "pair", "pair", "dict", "distarg", "nest"])
+        if k == "list":
+            C = container(ctx, "list")
+            cons = rng.choice(["kind({})", "ext({})", "second({})", "total({})", "{}", "{}[0]", "({} + [1])", "kind({} + [1])",
+                               "kind(Uniform({}, [1, 2]))", "ext(Uniform({}, [1, 2]))"])
+            if "Uniform" in cons:
+                base = cons.replace("Uniform({}, [1, 2])", "{}")
+                return cons.format(C[0]), dict(alts=[base.format(C[1]), base.format("[1, 2]")])
+            return cons.format(C[0]), dict(alts=[cons.format(C[1])])
+        if k == "tuple":
+            C = container(ctx, "tuple")
+            cons = rng.choice(["kind({})", "second({})", "total({})", "{}", "{}[1]", "kind({} + (1,))", "({} + (1, 2))",
+                               "f1(*{})" if C[0].count(",") == 1 else "total({})", "max(*{})"])
+            return cons.format(C[0]), dict(alts=[cons.format(C[1])])
+        if k == "pair":
+            C = container(ctx, "pair")
+            cons = rng.choice(["kind({})", "kind({})", "spread({})", "second({})", "{}", "{}.hi", "{}[0]", "total({})"])
+            return cons.format(C[0]), dict(alts=[cons.format(C[1])])
+        if k == "dict":
+            C = container(ctx, "dict")
+            cons = rng.choice(["getk({})", "getj({})"])   # dict literals are not wrapped by toDistribution: structural use only
+            return cons.format(C[0]), dict(alts=[cons.format(C[1])])
+        if k == "nest":
+            C = container(ctx, rng.choice(["list", "tuple", "pair"]))
+            D = container(ctx, rng.choice(["list", "tuple"]))
+            cons = rng.choice(["kind(second([0, {}]))", "kind(({}, {})[0])", "kind(second(({}, {})))", "total(second([{}, {}]))"])
+            n = cons.count("{}")
+            if n == 1:
+                return cons.format(C[0]), dict(alts=[cons.format(C[1])])
+            if "total" in cons:
+                C = container(ctx, "tuple")
+            return cons.format(C[0], D[0]), dict(alts=[cons.format(C[1], D[1])])
+        L = lazy(ctx)
+        R = rand()
+        d = rng.choice(["range", "normal", "uniform", "discrete", "call", "vecx", "vecnorm", "max", "hypot", "drange"])
+        if d == "range":
+            return f"Range({L[0]}, {L[0]} + 2)", dict(between=[L[1], f"{L[1]} + 2"])
+        if d == "normal":
+            return f"Normal({L[0]}, 0.001)", dict(between=[f"{L[1]} - 1", f"{L[1]} + 1"])
+        if d == "uniform":
+            return f"Uniform({L[0]}, 100, {R[0]})", dict(alts=[L[1], "100", R[1]])
+        if d == "discrete":
+            return f"Discrete({{{L[0]}: 1, 100: 2}})", dict(alts=[L[1], "100"])
+        if d == "call":
+            a = rng.choice(["({}, k={})", "({}, {})", "(k={}, a={})"])
+            return "Uniform(f1, f2)" + a.format(L[0], R[0]), dict(alts=["f1" + a.format(L[1], R[1]), "f2" + a.format(L[1], R[1])])
+        if d == "vecx":
+            return f"({L[0]} @ {R[0]}).x", dict(alts=[L[1]])
+        if d == "vecnorm":
+            return f"({R[0]} @ {L[0]}).norm()", dict(alts=[f"Vector({R[1]}, {L[1]}).norm()"])
+        if d == "max":
+            return f"max({L[0]}, {R[0]}, 1)", dict(alts=[f"max({L[1]}, {R[1]}, 1)"])
+        if d == "hypot":
+            return f"hypot({L[0]}, {R[0]})", dict(alts=[f"hypot({L[1]}, {R[1]})"])
+        if ctx == "class":
+            return "DiscreteRange(self.k, self.k + 2)", dict(between=["self.k", "self.k + 2"], alts_type="int")
+        return f"Range({L[0]}, {L[0]} + 2)", dict(between=[L[1], f"{L[1]} + 2"])
+
+    bar = rng.choice(["Range(1, 3)", "Range(1, 3)", "DiscreteRange(1, 4)", "2", "Uniform(1, 2, 5)"])
+    L = [LAZY_HELPERS_SC, 'vf = VectorField("Foo", lambda pos: 2 * pos.x)', "r = Range(0, 1)",
+         "class Foo(Object):", f"    bar: {bar}", "    k: DiscreteRange(0, 2)"]
+    checks, props, forms = [], ["bar", "k", "rnd"], []
+    for j in range(3):
+        sc, ch = form("class")
+        L.append(f"    c{j}: {sc}")
+        ch.update(prop=f"c{j}", text=sc, typed=True)
+        checks.append(ch); props.append(f"c{j}"); forms.append(sc)
+    spec = []
+    for j in range(3):
+        sc, ch = form("spec")
+        spec.append(f"with s{j} {sc}")
+        ch.update(prop=f"s{j}", text=sc, typed=True)
+        checks.append(ch); props.append(f"s{j}"); forms.append(sc)
+    L.append("ego = new Foo at (Range(0.2, 1.2), 0), with rnd r, " + ", ".join(spec))
+    return dict(kind="delayed", id=f"z{idx}", src="\n".join(L) + "\n", helpers_py=LAZY_HELPERS_PY, props=props, checks=checks,
+                seed=rng.randint(0, 10 ** 6), kwcall=False, forms=forms, lazy=True)
+
+
 # ------------------------------------------------------------------ main
-def build_case(rng, i, depth, nsamples, model_only):
+def corner_values(d):
+    """extreme values of a leaf with constant bounds (None: not available)."""
+    if d["kind"] in ("range", "drange"):
+        if all(a[0] == "const" for a in d["args"]):
+            return [d["args"][0][1], d["args"][1][1]]
+        return None
+    if d["kind"] == "tnorm":
+        return [d["params"][2], d["params"][3]]
+    if d["kind"] == "mux":
+        return list(range(len(d["items"])))
+    return None
+
+
+def build_case(rng, i, depth, nsamples, model_only, sign=False):
     g = Gen(rng, model_only=model_only)
-    top = rng.choice(["num", "num", "num", "seq"] + ([] if model_only else ["vec"]))
-    t = g.num(depth) if top == "num" else (g.seq(depth) if top == "seq" else g.vec(depth))
+    if sign:
+        top, t = "num", g.sign_case()
+    else:
+        top = rng.choice(["num", "num", "num", "seq"] + ([] if model_only else ["vec"]))
+        t = g.num(depth) if top == "num" else (g.seq(depth) if top == "seq" else g.vec(depth))
     defs = g.defs
     used = refs_in(t, defs, set())
     case = dict(id=f"e{i}", kind="expr", seed=rng.randint(0, 10 ** 6), nsamples=nsamples,
@@ -460,6 +703,11 @@ def build_case(rng, i, depth, nsamples, model_only):
         case["model"] = None
     case["fpdisc"] = has_fp_discontinuity(t) or any(has_fp_discontinuity(x) for d in defs for x in d.get("items", []) + d.get("args", []))
     case["used"] = sorted(used)
+    cvs = {d["var"]: corner_values(d) for d in defs if d["idx"] in used}
+    if cvs and all(v is not None for v in cvs.values()) and len(cvs) <= 6:
+        case["corners"] = cvs
+        for cd, d in zip(case["defs"], [d for d in defs if d["idx"] in used]):
+            cd["cfloat"] = d["kind"] in ("range", "tnorm")
     return case
 
 
@@ -477,13 +725,17 @@ def main():
     exe = common.build_ocaml(PID)
     quick = c.tier == "quick"
     ntrees = 360 if quick else 12000
+    nsign = 240 if quick else 6000
     nsamples = 10 if quick else 40
     ndelayed = 40 if quick else 600
+    nlazy = 60 if quick else 1200
     rng = c.rng
     cases = []
     for i in range(ntrees):
         depth = rng.choice([1, 2, 2, 3, 3, 4, 5])
         cases.append(build_case(rng, i, depth, nsamples, model_only=(i % 3 != 2)))
+    for i in range(nsign):
+        cases.append(build_case(rng, ntrees + i, 2, max(4, nsamples // 2), model_only=True, sign=True))
     # targeted cases (always run first): the shapes of the recorded defects
     targeted = [
         ("t-hypot", "hypot(L0, 0)", "hypot(L0, 0)", [("L0", "Range(-3, 1)")]),
@@ -514,6 +766,7 @@ def main():
     tcases[7]["model"], tcases[7]["tau"] = "un abs bin sub drange 0 const I 0 const I 5 const I 4", []
     cases = tcases + cases
     dcases = [gen_delayed(rng, i) for i in range(ndelayed)]
+    dcases += [gen_lazy(rng, i) for i in range(nlazy)]
     for d in dcases:
         d["nsamples"] = 3 if quick else 6
     if c.replay:
@@ -566,7 +819,7 @@ def main():
         c.hist("top:" + cs["top"])
         c.hist("in-model" if inmodel else "oracle-only")
         for t in cs["tags"]:
-            c.hist("tag:" + t.split(":")[0])
+            c.hist("tag:" + (t if t.startswith("sign:div") else t.split(":")[0]))
         if "compile_error" in r:
             c.hist("compile-error:" + r["compile_error"])
             c.count()
@@ -673,7 +926,7 @@ def main():
         if r is None or "crash" in r:
             c.violation("harness", "implementation driver crashed", dict(case=d, crash=(r or {}).get("crash")), no_input=True)
             continue
-        c.hist("delayed")
+        c.hist("lazy-container" if d.get("lazy") else "delayed")
         if "compile_error" in r:
             c.violation("delayed", "a class default / specifier argument over self.<prop> fails to compile",
                         dict(case=d, error=r["compile_error"], msg=r.get("msg"), kwcall=d["kwcall"]))
